@@ -252,7 +252,12 @@ def install(I):
 # ---------------------------------------------------------------------------- len
 def py_len(I, v):
     if isinstance(v, PyList):
-        return len(I.read_items(v))
+        items = I.read_items(v)
+        from .values import Segment
+        segs = [x for x in items if isinstance(x, Segment)]
+        if segs:
+            return mk(z3.Sum([x.n for x in segs]) + (len(items) - len(segs)), 'int')
+        return len(items)
     if isinstance(v, (tuple, str, range)):
         return len(v)
     if isinstance(v, PyDict):
@@ -410,6 +415,8 @@ def call_builtin_class(I, cls, a, k):
             return PyList()
         if isinstance(a[0], SymSeq):
             return SymSeq(a[0].arr, a[0].n, a[0].ek)
+        if isinstance(a[0], PyList):
+            return PyList(list(I.read_items(a[0])))     # copy (abstract segments are immutable values)
         return PyList(I.iterate(a[0]))
     if n == 'tuple':
         return tuple(I.iterate(a[0])) if a else ()
@@ -547,14 +554,20 @@ def builtin_attr(I, obj, name):
             return meth(lambda x: L.items.insert(0, x))
         if name == 'extend':
             return meth(lambda xs: L.items.extend(I.iterate(xs)))
+        from .values import Segment
+        has_seg = any(isinstance(x, Segment) for x in L.items)
         if name == 'pop':
             def pop(i=-1):
+                if has_seg and i in (-1, 0):
+                    return I.seg_pop(L, left=(i == 0))
                 if not L.items:
                     I.raise_builtin('IndexError', 'pop from empty list')
                 return L.items.pop(I.norm_index(i, len(L.items)))
             return meth(pop)
         if name == 'popleft':
             def popleft():
+                if has_seg:
+                    return I.seg_pop(L, left=True)
                 if not L.items:
                     I.raise_builtin('IndexError', 'pop from an empty deque')
                 return L.items.pop(0)
